@@ -5,8 +5,8 @@ import (
 	"go/ast"
 )
 
-func (fx *FuncCtx) initHeap(st *State)                 {}
-func (fx *FuncCtx) copyHeapForPost(pst, rst *State)    {}
+func (fx *FuncCtx) initHeap(st *State)                  {}
+func (fx *FuncCtx) copyHeapForPost(pst, rst *State)     {}
 func (x *Exec) havocHeapLoop(ls *loopSpec, head *State) {}
 
 func (x *Exec) heapWrite(r VRef, field string, v Val, st *State, n ast.Node) {
@@ -27,7 +27,9 @@ func (x *Exec) rangeOther(s *ast.RangeStmt, st *State, coll Val, lc *LoopContrac
 	return nil
 }
 
-func (p *Prog) replayKnown(o checkOpts, f KnownFinding) (bool, string) { return true, "replay not built yet" }
+func (p *Prog) replayKnown(o checkOpts, f KnownFinding) (bool, string) {
+	return true, "replay not built yet"
+}
 func (p *Prog) replayLemmaWitness(o checkOpts, lr *LemmaResult) (bool, string) {
 	return false, "replay not built yet"
 }
